@@ -383,10 +383,12 @@ class Check(PropertyCheck):
         'Coq 8.16.1 kernel (coqc; vm_compute for witnesses and for closed facts about py_int; no native_compute)',
         'no axioms (Print Assumptions: Closed under the global context for every theorem)',
         'extraction: ExtrOcamlBasic only; OCaml 4.13.1; coq/ocaml/driver.ml',
-        'translator harness/gen/gen_c17_code.py (fail-closed; Python ast of _parseInventoryLine and SphinxInventory.getLink -> '
+        'translator harness/gen/gen_c17_code.py (fail-closed; Python ast of _parseInventoryLine, SphinxInventory.getLink and SphinxInventory._parseInventory -> '
         'Gen/InventoryCode.v in the language of Model/InventoryIR.v; its normalisations -- for/range and while as SLoop, '
         'augmented assignment, dropped exception messages -- and the primitives of the language (str.split/join, '
-        'indexing/slicing, int(), len, endswith, dict.get, f-strings of str) are trusted as stated in Model/InventoryIR.v); '
+        'indexing/slicing, int(), len, endswith, dict.get, f-strings of str; for _parseInventory: str.splitlines, structural '
+        'for-each over the lines, the dict store, self.error as an appended report, the call of the translated '
+        '_parseInventoryLine by name) are trusted as stated in Model/InventoryIR.v); '
         'the interpretation of the generated code is also run against pydoctor as a third leg of the correspondence',
         'correspondence harness harness/c17.py + harness/impl/c17_inventory.py (real pydoctor.sphinx / driver.make / Sphinx reader)',
         'oracles, quantified over in the theorems: zlib.decompress / zlib.compress (contract: decompress(compress b) = b, '
@@ -413,7 +415,8 @@ class Check(PropertyCheck):
                  'object reachable through contents, mapped to its url (C17_inventory_roundtrip, '
                  'C17_entries_are_the_visible_objects, C17_roundtrip_getlink; guards: no int()-like piece from index 2 on, no '
                  'line boundary character in a qualified name, distinct qualified names). The model is tied to '
-                 'pydoctor/sphinx.py twice: (a) the bodies of _parseInventoryLine and SphinxInventory.getLink are translated from '
+                 'pydoctor/sphinx.py twice: (a) the bodies of _parseInventoryLine, SphinxInventory.getLink and '
+                 'SphinxInventory._parseInventory (C17_code_parse_inventory_is_model: same dict and same reports) are translated from '
                  'the current source on every run into a deep-embedded statement language (Gen/InventoryCode.v) and '
                  'C17_code_parse_line_is_model / C17_code_get_link_is_model prove, for all inputs, that interpreting that '
                  'code is the model (C17_code_parse_total states the robustness core on the translated code); (b) '
